@@ -745,14 +745,37 @@ def types(ctx, c):
 
 
 def child_order(ctx):
+    """find_next_child(pos, e): a counter starting at 0 is incremented once per child in for_each_child order, the child seen when
+    counter == pos is the result (assigned before the increment)"""
     f = ctx.fn("patronus", S + "find_next_child")
+    ix = Index(f["body"])
+    defs = local_defs(f)
+    p_pos = (param_ids(f) + [None])[0]
     txt = show(f["body"])
-    fec = [n for n in walk(f["body"]) if n.get("k") == "mcall" and n["name"] == "for_each_child"]
+    fec = [n for n in ix.nodes if n.get("k") == "mcall" and n["name"] == "for_each_child"]
     ok = len(fec) == 1
     if ok:
-        cl = peel(fec[0]["args"][0])
-        b = show(cl["body"]).replace(" ", "")
-        ok = "if(count==pos){out=Option::Some(*c)}" in b and "count+=1" in b and b.index("count==pos") < b.index("count+=1") and "letcount=0" in txt.replace(" ", "")
+        cl = resolve(fec[0]["args"][0])
+        cb = pat_bindings(cl["params"][0]) if cl.get("k") == "closure" and cl.get("params") else []
+        incs = [n for n in walk(cl.get("body", {})) if n.get("k") == "assignop" and n["op"] in ("+=", "+") and peel(n["l"]).get("k") == "local" and peel(n["r"]).get("v") == 1]
+        ok = len(cb) == 1 and len(incs) == 1 and len(ix.regions[id(incs[0])]) == len(ix.regions[id(cl)]) + 1
+        if ok:
+            counter = peel(incs[0]["l"])["id"]
+            init = simple_let_init(defs, counter)
+            ok = init is not None and peel(init).get("v") == 0
+            # the selection: `if counter == pos { out = Some(*c) }` before the increment
+            sel = [a for a in walk(cl["body"]) if a.get("k") == "assign" and peel(a["l"]).get("k") == "local"]
+            ok = ok and len(sel) == 1
+            if ok:
+                a = sel[0]
+                r = peel(a["r"])
+                conds = norm_.path_conditions(ix, a, upto=cl)
+                eq = len(conds) == 1 and conds[0][1] is True and conds[0][0].get("k") == "binary" and conds[0][0]["op"] == "==" and \
+                    {local_id(conds[0][0]["l"]), local_id(conds[0][0]["r"])} == {canon(counter), canon(p_pos)}
+                ok = eq and r.get("k") == "ctor" and callee(r).endswith("Option::Some") and is_local(r["args"][0], cb[0][1]) and ix.precedes(a, incs[0]) \
+                    and is_local(norm_.result_value(f["body"]), peel(a["l"])["id"])
+                oinit = simple_let_init(defs, peel(a["l"])["id"])
+                ok = ok and oinit is not None and (callee(peel(oinit)) or peel(oinit).get("path", "")).endswith("Option::None")
     ctx.inst("R05.3", "find_next_child", ok, f["span"], "find_next_child(pos) must return the pos-th child in for_each_child order: %s" % txt[:200], sample=txt[:160])
 
 
@@ -952,7 +975,14 @@ def identifiers(ctx, c):
     g = ctx.fn("patronus", S + "escape_smt_identifier")
     gt = show(g["body"])
     sites = fmtstr.macro_sites(c, g["body"], ("format",))
-    okq = len(sites) == 1 and fmtstr.parse_call(sites[0]["snippet"])[2] == "|{}|" and "is_simple_smt_identifier(id)" in gt
+    g_id = (param_ids(g) + [None])[0]
+    tests = [x for x in walk(g["body"]) if x.get("k") == "call" and callee(x) == S + "is_simple_smt_identifier" and is_local(x["args"][0], g_id)]
+    okq = len(sites) == 1 and fmtstr.shape(fmtstr.parse_call(sites[0]["snippet"])[2]) == "|{}|" and len(tests) == 1 and bool(fmtstr.arg_nodes(sites[0])) and is_local(fmtstr.arg_nodes(sites[0])[0], g_id)
+    if okq:
+        # quoted exactly when the test fails, passed through unchanged when it holds
+        gx = Index(g["body"])
+        conds = [(c_, pol) for c_, pol in norm_.path_conditions(gx, sites[0]["node"]) if c_ is tests[0] or resolve(c_) is tests[0]]
+        okq = len(conds) == 1 and conds[0][1] is False
     ctx.inst("R05.5", "quoting", okq, g["span"], "everything that is not a simple symbol must be wrapped in |..|: %s" % gt[:120])
     # every identifier written goes through escape_smt_identifier
     n_sym = 0
